@@ -312,6 +312,16 @@ def gen_confine(rnd):
                 # one child of the addressed workers vanishes at a kernel-call boundary of the request
                 r['vanish'] = [rnd.choice([1, 2, 2, 3, 3, 4, 5, 6, 8]), rnd.randint(0, 5)]
         reqs.append(r)
+    if rnd.random() < .3:
+        # a termination in the other watcher first (it lists that watcher's children on the way), then a signal
+        # addressed to an own worker with a child of the other watcher as childpid
+        other = rnd.choice(['a', 'b'])
+        mine = 'b' if other == 'a' else 'a'
+        reqs[0] = {'cmd': 'kill', 'name': other, 'signum': 15, 'graceful_timeout': 0.2}
+        reqs[1] = {'cmd': 'signal', 'name': mine, 'signum': rnd.choice([10, 12, 'usr1']), 'pid': 'own',
+                   'childpid': rnd.choice(['otherchild', 'orphan', 'orphan'])}
+        if state == 'stopped' and mine == 'a':
+            state = 'active'
     sc = rnd.random() < .5
     return {'watchers': [{'name': 'a', 'numprocesses': 2, 'graceful_timeout': 0.3, 'beh': [{'*': ['ignore']}],
                           'kids': kids, 'stop_children': sc},
